@@ -44,6 +44,7 @@ def run(ctx):
         if fs.find(r'^complete_gen::<impl args::inner::State>::check_complete$', required=False):
             import c14
             ctx.guard(c14.pos_only_source, ctx, cfg, fs, 'C.completion')
+            ctx.guard(dash_test_scoped, ctx, cfg, fs)
         import wiring
         ctx.guard(wiring.builders, ctx, cfg, fs, 'S.strictness', r'^(positional|params::build_positional|params::ParsePositional::<T>::(strict|non_strict|help))$')
         ctx.guard(classes, ctx, cfg, fs)
@@ -293,6 +294,40 @@ def after_separator(ctx, cfg, fs):
         bad = {k_: v_ for k_, v_ in t.items() if k_ in ('Flag', 'Argument', 'Command') and v_ is not False}
         ctx.ob('K.classes', 'Comp::is_pos:names-are-not-positional', enum == 'complete_gen::Comp' and not bad and all(k_ in t for k_ in ('Flag', 'Argument', 'Command')),
                'Comp::is_pos = %s (flags, arguments and commands cannot be typed right of `--`)' % {k_: t.get(k_) for k_ in sorted(t)}, where=ip.where(), cfg=cfg)
+
+def dash_test_scoped(ctx, cfg, fs, rule='C.completion'):
+    """Complete::complete looks at the SPELLING of the typed word in one place (a word that starts with a dash is taken for an attempt to
+    type a name, and placeholders of positionals are withheld).  Right of `--` a dash is just text: every decision that hangs on a
+    dash test of the typed word is also conditional on `pos_only` being false."""
+    cs = fs.find(r'^complete_gen::Complete::complete$', required=False)
+    if not cs:
+        return
+    b = ctx.look(cs[0])
+    pos = [l for l, nm in b.local_names.items() if nm == 'pos_only' and l <= b.arg_count]
+    if not pos:
+        raise Broken('Complete::complete: no parameter called pos_only')
+    pl = pos[0]
+    def reads_pos_only(sw):
+        return sw.kind == 'bool' and bool(sw.roots) and all(r.kind == 'param' and r.what in (pl, 'pos_only') and not r.path for r in sw.roots)
+    n = 0; bad = []
+    for c in b.calls():
+        if not c.is_(r'str>?::starts_with') or not c.args:
+            continue
+        rs = provenance(b, c.args[0], c.bb, 'term', through=None)
+        if not (rs and all(r.kind == 'param' for r in rs)):
+            continue
+        sw = switch_on_call(b, c)
+        if sw is None:
+            continue
+        n += 1
+        t = sw.target(True) if sw.kind == 'bool' else None
+        if t is None:
+            bad.append('dash test at %s is not a plain boolean test' % b.where(c.bb)); continue
+        deps = set(b.transitive_control_deps(t)) | {(sw.b, t)}
+        if not any(reads_pos_only(Switch(b, a_)) and s_ == Switch(b, a_).target(False) for (a_, s_) in deps if b.term(a_)['k'] == 'switch'):
+            bad.append('what the dash test at %s decides does not depend on pos_only being false' % b.where(c.bb))
+    ctx.ob(rule, 'Complete::complete:dash-test-only-left-of-separator', n >= 1 and not bad,
+           '%d spelling test(s) of the typed word in Complete::complete: %s' % (n, '; '.join(bad) or 'each one only matters while pos_only is false'), where=b.where(), cfg=cfg)
 
 def classes(ctx, cfg, fs):
     cc = ctx.look(fs.one(r'^error::Message::can_catch$'))
